@@ -20,8 +20,8 @@ async fn main() {
     let mut reported = std::collections::BTreeSet::new();
     let sk = SigningKey::generate();
     let ch = rp_stream::chain(&sk, 6);
-    let prune_points = [2u32, 4];
-    for p in perms(6) {
+    // two flag assignments: prune points in the middle of the log, and a log that also STARTS with a prune point
+    for prune_points in [vec![2u32, 4], vec![0u32, 3]] { for p in perms(6) {
         let store = SqliteStore::temporary().await;
         let mut floor = 0u32; // greatest ingested prune point
         let mut order = vec![];
@@ -37,7 +37,7 @@ async fn main() {
                     let class = if flag { "prune-flagged-operation-below-ingested-prune-point" } else { "operation-below-ingested-prune-point" };
                     if reported.insert(class) {
                         let stored = rp_stream::stored_seqs(&store, &sk).await;
-                        rp_core::report(true, class, json!({"chain": "seq 0..5, prune flag on 2 and 4", "delivery_order": order.clone()}),
+                        rp_core::report(true, class, json!({"chain": format!("seq 0..5, prune flag on {prune_points:?}"), "delivery_order": order.clone()}),
                             json!({"accepted_seq": seq, "ingested_prune_point": floor, "stored_seqs_after": stored}),
                             &["oplog::validate_prunable_backlink.ensures#never_below_head", "oplog::validate_prunable_backlink.ensures#ok_iff_extends_log", "oplog::ingest_operation.ensures#never_below_head", "oplog::ingest_operation.ensures#accepted_extends_log"]);
                     }
@@ -45,6 +45,6 @@ async fn main() {
                 if flag && seq > floor { floor = seq; }
             }
         }
-    }
+    } }
     println!("{}", json!({"summary": true, "evaluations": n, "violating_classes": reported}));
 }
